@@ -13,17 +13,24 @@ import (
 )
 
 func init() {
-	register(&Rule{ID: "R-interrupt-passthrough", Floor: 15, Run: ruleR4InterruptPass,
-		Doc: "interrupt pass-through in the VM: in every function of the runtime and runtime/value packages that returns a *value.VmInterrupt and receives one from a callee (builtin callback, host call, equality / display / fields / index helpers, …): on every path on which the received interrupt is non-nil, the function returns that very value, unless the path tested the interrupt's kind in a way that excludes the termination kind (`Kind() == <other kind>`, `Kind() != Vm_TerminateInterruptKind`, a switch clause that does not list it); replacing it by a freshly built interrupt, or returning nil, without such a test converts a cancellation into something else (a fatal host error) or swallows it. An interrupt that is received but neither tested nor returned on a normally ending path is dropped. Necessary for C10/C16: a termination interrupt raised inside a blocking builtin that noticed the cancel must reach Core.Run as a termination, so the host observes `terminated` and not a fatal exception"})
+	register(&Rule{ID: "R-interrupt-passthrough", Floor: 60, Run: ruleR4InterruptPass,
+		Doc: "interrupt pass-through in both engines: in every function of the runtime and runtime/value packages that returns a *value.VmInterrupt, and of the interpreter and interpreter/value packages that returns a *value.Interrupt (termination kind TerminateInterruptKind; the loop / call constructs that swallow break, continue and return do so under a test of exactly those kinds), and receives one from a callee (builtin callback, host call, equality / display / fields / index helpers, …): on every path on which the received interrupt is non-nil, the function returns that very value, unless the path tested the interrupt's kind in a way that excludes the termination kind (`Kind() == <other kind>`, `Kind() != Vm_TerminateInterruptKind`, a switch clause that does not list it); replacing it by a freshly built interrupt, or returning nil, without such a test converts a cancellation into something else (a fatal host error) or swallows it. An interrupt that is received but neither tested nor returned on a normally ending path is dropped. Necessary for C10/C16: a termination interrupt raised inside a blocking builtin that noticed the cancel must reach Core.Run as a termination, so the host observes `terminated` and not a fatal exception"})
 }
 
 func ruleR4InterruptPass(c *Ctx) []Obligation {
 	r2LoopCtx = c
-	rt := c.Pkg("homescript/runtime")
-	vp := c.Pkg("homescript/runtime/value")
-	intrObj := vp.Types.Scope().Lookup("VmInterrupt")
+	var obs []Obligation
+	// the VM's interrupts, and (round 5) the tree-walking interpreter's
+	obs = append(obs, r4emInterruptPass(c, []string{"homescript/runtime", "homescript/runtime/value"}, "homescript/runtime/value", "VmInterrupt", "Vm_TerminateInterruptKind")...)
+	obs = append(obs, r4emInterruptPass(c, []string{"homescript/interpreter", "homescript/interpreter/value"}, "homescript/interpreter/value", "Interrupt", "TerminateInterruptKind")...)
+	return obs
+}
+
+func r4emInterruptPass(c *Ctx, pkgs []string, valuePkg, intrName, termName string) []Obligation {
+	vp := c.Pkg(valuePkg)
+	intrObj := vp.Types.Scope().Lookup(intrName)
 	if intrObj == nil {
-		fatalf("anchor unresolved: runtime/value.VmInterrupt")
+		fatalf("anchor unresolved: %s.%s", valuePkg, intrName)
 	}
 	isIntr := func(t types.Type) bool {
 		p, ok := t.(*types.Pointer)
@@ -33,11 +40,13 @@ func ruleR4InterruptPass(c *Ctx) []Obligation {
 		n, ok := types.Unalias(p.Elem()).(*types.Named)
 		return ok && n.Obj() == intrObj
 	}
-	termK := vmConst(c, "homescript/runtime/value", "Vm_TerminateInterruptKind")
+	termK := vmConst(c, valuePkg, termName)
 	var obs []Obligation
-	fns := append(vmFuncs(c, "homescript/runtime"), vmFuncs(c, "homescript/runtime/value")...)
+	var fns []*vmFn
+	for _, rel := range pkgs {
+		fns = append(fns, vmFuncs(c, rel)...)
+	}
 	sort.Slice(fns, func(i, j int) bool { return fns[i].name < fns[j].name })
-	_ = rt
 	for _, fn := range fns {
 		info := fn.info
 		obj, _ := info.Defs[fn.fd.Name].(*types.Func)
@@ -115,10 +124,40 @@ func ruleR4InterruptPass(c *Ctx) []Obligation {
 			}
 			return false
 		}
-		res := vmWalk(vmWalkOpts{fn: fn, correlate: true, replace: vmSlicer(relevant)})
+		// helpers that receive the interrupt as a parameter (the merged `switch (*i).Kind()` behind a
+		// loop body, `handle(i)`) are spliced into the walk: their kind tests and returns are the caller's
+		inPkgs := map[*types.Package]bool{}
+		for _, rel := range pkgs {
+			inPkgs[c.Pkg(rel).Types] = true
+		}
+		takesIntr := func(callee *vmFn, call *ast.CallExpr) bool {
+			if callee.fd == fn.fd || !inPkgs[callee.pkg.Types] || len(callee.fd.Body.List) > 12 {
+				return false
+			}
+			for _, po := range vmParamObjs(callee) {
+				if po != nil && isIntr(po.Type()) {
+					return true
+				}
+			}
+			return false
+		}
+		relevant0 := relevant
+		relevant = func(n ast.Node) bool {
+			if relevant0(n) {
+				return true
+			}
+			if call, ok := n.(*ast.CallExpr); ok {
+				if callee := vmDeclIndex(c).of(CalleeOf(info, call)); callee != nil && takesIntr(callee, call) {
+					return true
+				}
+			}
+			return false
+		}
+		res := vmWalk(vmWalkOpts{fn: fn, correlate: true, replace: vmSlicer(relevant), inline: takesIntr})
 		type verdict struct {
-			bad   []string
-			paths int
+			bad    []string
+			latent []string // violating paths that no input reaches today (see rules_r5emit_latent.go)
+			paths  int
 		}
 		verdicts := map[*site]*verdict{}
 		for _, s := range sites {
@@ -128,14 +167,27 @@ func ruleR4InterruptPass(c *Ctx) []Obligation {
 			obs = append(obs, Obligation{Key: fn.name + "|<paths>", Pos: c.Pos(fn.fd.Pos()), Status: Undecided, Detail: "path cap exceeded"})
 			continue
 		}
+		var rootOf func(o types.Object) types.Object
 		kindOf := func(e ast.Expr, o types.Object) bool {
-			// (*o).Kind()
+			// (*o).Kind(), also through a parameter of a spliced helper that is bound to o
 			call, ok := ast.Unparen(e).(*ast.CallExpr)
 			if !ok || len(call.Args) != 0 {
 				return false
 			}
 			sel, ok := ast.Unparen(call.Fun).(*ast.SelectorExpr)
-			return ok && sel.Sel.Name == "Kind" && vmMentionsObj(info, sel.X, o)
+			if !ok || sel.Sel.Name != "Kind" {
+				return false
+			}
+			hit := false
+			ast.Inspect(sel.X, func(n ast.Node) bool {
+				if id, ok := n.(*ast.Ident); ok {
+					if io := info.Uses[id]; io != nil && (io == o || (rootOf != nil && rootOf(io) == o)) {
+						hit = true
+					}
+				}
+				return !hit
+			})
+			return hit
 		}
 		for i := range res.paths {
 			p := &res.paths[i]
@@ -147,8 +199,24 @@ func ruleR4InterruptPass(c *Ctx) []Obligation {
 				nonNil  int // 0 unknown, 1 non-nil, -1 nil
 				tested  bool
 				exclude bool // termination excluded by a kind test
+				isTerm  bool // decided to BE a termination
+				eqKind  *types.Const
 			}
+			infeasible := false
 			live := map[types.Object]*st{}
+			alias := map[types.Object]types.Object{} // parameter / result variable of a spliced helper → received variable
+			root := func(o types.Object) types.Object {
+				for hop := 0; o != nil && hop < 6; hop++ {
+					n, ok := alias[o]
+					if !ok {
+						break
+					}
+					o = n
+				}
+				return o
+			}
+			objOf := func(e ast.Expr) types.Object { return root(vmObjOf(info, e)) }
+			rootOf = root
 			for _, e := range p.ev {
 				switch e.K {
 				case evAssign:
@@ -158,6 +226,15 @@ func ruleR4InterruptPass(c *Ctx) []Obligation {
 					if call, ok := ast.Unparen(e.Rhs).(*ast.CallExpr); ok && siteOf[call] != nil {
 						if o := vmObjOf(info, e.Lhs); o == siteOf[call].obj {
 							live[o] = &st{s: siteOf[call]}
+							delete(alias, o)
+						}
+						continue
+					}
+					if lo := vmObjOf(info, e.Lhs); lo != nil && isIntr(lo.Type()) {
+						if ro := objOf(e.Rhs); ro != nil && live[ro] != nil && ro != lo {
+							alias[lo] = ro
+						} else if live[lo] == nil {
+							delete(alias, lo)
 						}
 					}
 				case evCond:
@@ -167,7 +244,7 @@ func ruleR4InterruptPass(c *Ctx) []Obligation {
 						continue
 					}
 					for o, s := range live {
-						if vmObjOf(info, be.X) == o && vmIsNil(info, be.Y) || vmObjOf(info, be.Y) == o && vmIsNil(info, be.X) {
+						if objOf(be.X) == o && vmIsNil(info, be.Y) || objOf(be.Y) == o && vmIsNil(info, be.X) {
 							s.tested = true
 							isNil := (be.Op == token.EQL) == e.Taken
 							if isNil {
@@ -189,6 +266,16 @@ func ruleR4InterruptPass(c *Ctx) []Obligation {
 							}
 							if (isEq && k != termK) || (!isEq && k == termK) {
 								s.exclude = true
+							}
+							if isEq && k == termK {
+								s.isTerm = true
+							}
+							if isEq {
+								// two different kinds decided for one value: not a real path
+								if s.eqKind != nil && s.eqKind != k {
+									infeasible = true
+								}
+								s.eqKind = k
 							}
 						}
 					}
@@ -223,15 +310,21 @@ func ruleR4InterruptPass(c *Ctx) []Obligation {
 					}
 				}
 			}
-			if p.o.kind != cReturn || p.o.ret == nil || ri >= len(p.o.ret.Results) {
+			if infeasible || p.o.kind != cReturn || p.o.ret == nil || ri >= len(p.o.ret.Results) {
 				continue
 			}
 			r := ast.Unparen(p.o.ret.Results[ri])
 			for o, s := range live {
 				v := verdicts[s.s]
 				v.paths++
-				if vmObjOf(info, r) == o {
-					continue // passed through
+				if objOf(r) == o {
+					continue // passed through (possibly via the result of a spliced helper)
+				}
+				// another received interrupt that the path decided to be a termination is returned
+				// instead (the kill handler's own interrupt is dropped in favour of the termination
+				// that started it): the run still ends as terminated
+				if other := live[objOf(r)]; other != nil && other.isTerm {
+					continue
 				}
 				if s.nonNil == -1 || s.exclude {
 					continue
@@ -239,6 +332,10 @@ func ruleR4InterruptPass(c *Ctx) []Obligation {
 				what := "replaced by `" + vmTrunc(exprStr(r), 60) + "`"
 				if vmIsNil(info, r) {
 					what = "swallowed (nil is returned)"
+				}
+				if why, latent := r5emLatentLookup(c, fn, p); latent {
+					v.latent = append(v.latent, fmt.Sprintf("path [%s]: %s", vmTrunc(p.decisions(), 220), why))
+					continue
 				}
 				switch {
 				case s.nonNil == 1:
@@ -265,6 +362,11 @@ func ruleR4InterruptPass(c *Ctx) []Obligation {
 					bad = bad[:2]
 				}
 				ob.Status, ob.Detail = Violated, strings.Join(bad, " | ")
+			case len(v.latent) > 0:
+				lat := vmUniq(v.latent)
+				sort.Slice(lat, func(i, j int) bool { return len(lat[i]) < len(lat[j]) })
+				ob.Status = Info
+				ob.Detail = "latent: the interrupt would be replaced / dropped without a kind test, but only on path(s) that are unreachable today — " + lat[0] + ". The obligation becomes a violation as soon as that producer gets a caller"
 			case v.paths == 0:
 				ob.Status, ob.Detail = Discharged, "no returning path carries the interrupt (the paths through a non-nil interrupt end in a panic)"
 			default:
@@ -274,7 +376,7 @@ func ruleR4InterruptPass(c *Ctx) []Obligation {
 		}
 	}
 	if len(obs) == 0 {
-		obs = append(obs, Obligation{Key: "runtime|interrupt receive sites", Status: Undecided, Detail: "no function of the runtime package receives an interrupt from a callee and returns one: re-anchor the rule"})
+		obs = append(obs, Obligation{Key: pkgs[0] + "|interrupt receive sites", Status: Undecided, Detail: "no function of the package receives an interrupt from a callee and returns one: re-anchor the rule"})
 	}
 	return obs
 }
